@@ -301,8 +301,19 @@ func (r *transport) handleCacheHit(
 	respNoCacheFieldsRaw, hasRespNoCache := ccResp.NoCache()
 	respNoCacheFieldsSeq, isRespNoCacheQualified := respNoCacheFieldsRaw.Value()
 
-	// RFC 8246: If response is fresh and immutable, always serve from cache unless request has no-cache
-	if !freshness.IsStale && ccResp.Immutable() && !ccReq.NoCache() {
+	// Directives that demand validation are never overridden by max-stale,
+	// only-if-cached, stale-while-revalidate or immutable (RFC 9111 §5.2.1.4,
+	// §5.2.2.2, §5.2.2.4). "Expired" is judged without the max-stale allowance.
+	expired := freshness.Age.Value >= freshness.UsefulLife
+	mustValidate := ccReq.NoCache() ||
+		(hasRespNoCache && !isRespNoCacheQualified) ||
+		(expired && ccResp.MustRevalidate())
+	reqMaxAge, hasReqMaxAge := ccReq.MaxAge()
+	reqMaxAgeExceeded := hasReqMaxAge && freshness.Age.Value >= reqMaxAge
+
+	// Fresh (or within the request's max-stale allowance): serve from cache.
+	// This covers fresh immutable responses (RFC 8246) as well.
+	if !mustValidate && !freshness.IsStale {
 		return r.serveFromCache(
 			req,
 			urlKey,
@@ -313,12 +324,12 @@ func (r *transport) handleCacheHit(
 		)
 	}
 
-	if (freshness.IsStale && ccResp.MustRevalidate()) ||
-		(hasRespNoCache && !isRespNoCacheQualified) { // Unqualified no-cache: must revalidate before serving from cache
-		goto revalidate
-	}
-
-	if ccReq.OnlyIfCached() || (!freshness.IsStale && !ccReq.NoCache()) {
+	// only-if-cached never reaches the origin (RFC 9111 §5.2.1.7): a stale
+	// response may be used unless validation is required, otherwise 504.
+	if ccReq.OnlyIfCached() {
+		if mustValidate || reqMaxAgeExceeded {
+			return make504Response(req)
+		}
 		return r.serveFromCache(
 			req,
 			urlKey,
@@ -329,7 +340,8 @@ func (r *transport) handleCacheHit(
 		)
 	}
 
-	if swr, swrValid := ccResp.StaleWhileRevalidate(); freshness.IsStale && swrValid {
+	if swr, swrValid := ccResp.StaleWhileRevalidate(); !mustValidate && !reqMaxAgeExceeded &&
+		freshness.IsStale && swrValid {
 		age := freshness.Age.Value + r.clock.Since(freshness.Age.Timestamp)
 		staleFor := age - freshness.UsefulLife
 		if staleFor >= 0 && staleFor < swr {
@@ -337,7 +349,6 @@ func (r *transport) handleCacheHit(
 		}
 	}
 
-revalidate:
 	req = withConditionalHeaders(req, stored.Data.Header)
 	resp, start, end, err := r.roundTripTimed(req)
 	ctx := internal.RevalidationContext{
